@@ -54,12 +54,21 @@ fn umin(a: usize, b: usize) -> (r: usize) ensures r == (if a <= b { a } else { b
 '''
 
 
+def _canon_read(text):
+    """the local bound to std::cmp::min(16 - offset, buf.len() - index) is called `read` in the contract: rename it if the source calls it otherwise"""
+    import re
+    mm = re.search(r'let (\w+) = std::cmp::min\(16 - offset, buf\.len\(\) - index\);', text)
+    if not mm or mm.group(1) == 'read':
+        return text, 0
+    return re.sub(r'\b%s\b' % re.escape(mm.group(1)), 'read', text), 1
+
+
 def unit():
     u = VUnit('aes_fill', 'SeedStreamFixedKeyAes128::fill: byte i of any read is stream byte (position + i); chunking independent')
     u.oracle = {'inject': 'src/vdaf/xof.rs', 'file': 'aes_fill_oracle.rs', 'test': 'verif_oracle_aes_fill::oracle_'}
     u.raw(PRELUDE, 'abstract-cipher')
     u.item(F, ['impl SeedStreamFixedKeyAes128', 'fn fill'], impl_header='impl SeedStreamFixedKeyAes128', nth={0: 0},
-           rewrites=[(r'buf: &mut \[u8\]', 'buf: &mut Vec<u8>', 1),
+           rewrites=[(_canon_read, 'E3: local renamed to the name used in the contract', '*'), (r'buf: &mut \[u8\]', 'buf: &mut Vec<u8>', 1),
                      (r'u64::try_from\(buf\.len\(\)\)\.unwrap\(\)', 'u64_from_usize(buf.len())', '*'), (r'usize::try_from\(self\.length_consumed % 16\)\.unwrap\(\)', 'usize_from_u64(self.length_consumed % 16)', '*'),
                      (r'let mut block = Block::from\(\[0; 16\]\);', 'let mut block = [0u8; 16];', 1),
                      (r'for block_counter in ([^{]*?)\.\.([^{]*?) \{', r'let start_ = \1; let end_ = \2; for block_counter in start_..end_ {', 1),
